@@ -147,7 +147,12 @@ func worker(t *testing.T, p *Property, j job) {
 			}
 		}
 		if res.Nontrivial && len(fps) < 500000 {
-			fps[res.Fingerprint] = true
+			if len(res.FPs) == 0 {
+				fps[res.Fingerprint] = true
+			}
+			for _, f := range res.FPs {
+				fps[f] = true
+			}
 		}
 		if res.Nontrivial {
 			s.Nontrivial++
